@@ -166,6 +166,21 @@ func (w *World) mapIterProbe(m *atree.OrderedMap) ProbeObs {
 	p.Iters = append(p.Iters, obs("ReadOnlyIterator", err, w.idsOfValues(vs), 0, 0))
 	vs, err = drainMap(m.Iterator(cmp, hip))
 	p.Iters = append(p.Iters, obs("Iterator", err, w.idsOfValues(vs), 0, 0))
+	{
+		// lookups agree with enumeration: Get of every key, in enumeration order
+		var keys, kvs []atree.Value
+		_ = m.IterateReadOnlyKeys(func(k atree.Value) (bool, error) { keys = append(keys, k); return true, nil })
+		var gerr error
+		for _, k := range keys {
+			v, err := m.Get(cmp, hip, k)
+			if err != nil {
+				gerr = err
+				break
+			}
+			kvs = append(kvs, k, v)
+		}
+		p.Iters = append(p.Iters, obs("Get(every key)", gerr, w.idsOfValues(kvs), 0, 0))
+	}
 	// keys-only and values-only flavours (S = 1: keys, S = 2: values)
 	vs, err = one(m.IterateReadOnlyKeys)
 	p.Ranges = append(p.Ranges, obs("IterateReadOnlyKeys", err, w.idsOfValues(vs), 1, 0))
@@ -365,9 +380,24 @@ func (w *World) RunProbes(t int, root string, which map[string]bool, rng *rand.R
 		write(r)
 		if err == nil {
 			if h.Kind == "A" {
+				// mutate the copy (remove its first element, append one), then dispose of it
+				if ca.Count() > 0 {
+					old, rerr := ca.Remove(0)
+					must(rerr)
+					w.dispose(old)
+				}
 				must(ca.Append(mkValue(ElemSpec{ID: 999998, Sz: 40})))
 				w.disposeArray(ca)
 			} else {
+				// remove the first key (in enumeration order) from the copy, then dispose of it
+				var firstKey atree.Value
+				_ = cm.IterateReadOnlyKeys(func(k atree.Value) (bool, error) { firstKey = k; return false, nil })
+				if firstKey != nil {
+					k, v, rerr := cm.Remove(testutils.CompareValue, testutils.GetHashInput, firstKey)
+					must(rerr)
+					w.dispose(k)
+					w.dispose(v)
+				}
 				w.disposeMap(cm)
 			}
 			write(w.rec(t, ev("OtherDisposed"), Op{H: root}, Res{Class: "ok"}))
